@@ -16,6 +16,7 @@ import (
 	"log"
 	"os"
 	"runtime"
+	"runtime/debug"
 	"runtime/pprof"
 
 	"verifh/ev"
@@ -24,14 +25,6 @@ import (
 func main() {
 	r := ev.Start("C14")
 	log.SetOutput(io.Discard) // the buffer layer logs every (intended) corrupted backend object
-	// Millions of short-lived handler invocations: an untouched ballast keeps the
-	// collector from running every few megabytes (performance only).
-	ballastMiB := 512
-	if v := os.Getenv("C14_BALLAST_MIB"); v != "" {
-		fmt.Sscan(v, &ballastMiB)
-	}
-	ballast := make([]byte, ballastMiB<<20)
-	defer runtime.KeepAlive(ballast)
 	r.Rule("venum: every element of the spaces described per sub-check is executed against the real handlers. Non-trivial = Write: the stream carries >= 2 messages; Read: offset != 0, object not plainly present, read_limit set or a Send fails; batch calls: >= 2 entries (BatchUpdateBlobs: >= 2 distinct entry kinds); FindMissingBlobs: non-empty request against a backend that is neither empty nor full; sequences: >= 2 operations (back-to-back CAS: starting with a Put). All enumerated cases are distinct by construction (cuts are de-duplicated before running).")
 	r.Assume("Write: messages after the first finish_write, and a stream error after it, are don't-care for acceptance (DESIGN 5.3): either OK with exactly the right bytes stored, or an error with nothing stored.")
 	r.Assume("Write: resource names of later messages are not part of the property; they are enumerated (same / different object / empty) only to show they never make anything else visible.")
@@ -54,10 +47,10 @@ func main() {
 	}
 
 	if r.Want("bs-write-seq") {
-		writeSeq(r, "bs-write-seq", ev.Pick(r, 4, 5), ev.Pick(r, 3, 4), ev.Pick(r, 2, 3))
+		withBallast(func() { writeSeq(r, "bs-write-seq", ev.Pick(r, 4, 5), ev.Pick(r, 3, 4), ev.Pick(r, 2, 3)) })
 	}
 	if r.Want("bs-write-cuts") {
-		writeCuts(r, "bs-write-cuts", ev.Pick(r, 3, 4))
+		withBallast(func() { writeCuts(r, "bs-write-cuts", ev.Pick(r, 3, 4)) })
 	}
 	if r.Want("bs-write-names") {
 		writeNames(r, "bs-write-names")
@@ -77,6 +70,9 @@ func main() {
 	if r.Want("action-cache") {
 		actionCacheSub(r, "action-cache", ev.Pick(r, 3, 4))
 	}
+	if r.Want("client-scripted") {
+		clientSub(r, "client-scripted")
+	}
 	if r.Want("b2b-cas") {
 		b2bSub(r, "b2b-cas", ev.Pick(r, 3, 4))
 	}
@@ -85,6 +81,23 @@ func main() {
 	}
 	pprof.StopCPUProfile()
 	r.Finish()
+}
+
+// withBallast keeps an untouched allocation alive while f runs so that the
+// collector does not run every few megabytes: the bounded zstd pool keeps its
+// decoders in a sync.Pool, which every collection empties, and a new decoder
+// zeroes an 8 MiB window. Performance only; the gRPC sub-checks are faster
+// without it.
+func withBallast(f func()) {
+	mib := 512
+	if v := os.Getenv("C14_BALLAST_MIB"); v != "" {
+		fmt.Sscan(v, &mib)
+	}
+	ballast := make([]byte, mib<<20)
+	f()
+	runtime.KeepAlive(ballast)
+	ballast = nil
+	debug.FreeOSMemory()
 }
 
 func replay(r *ev.Run, rf ev.ReplayFile) {
@@ -124,6 +137,11 @@ func replay(r *ev.Run, rf ev.ReplayFile) {
 		var c accase
 		ev.MustJSON(rf.Case, &c)
 		msg, sig, oc := runAC(&c)
+		report(msg, sig, oc, c)
+	case "client-scripted":
+		var c ccase
+		ev.MustJSON(rf.Case, &c)
+		msg, sig, oc := runClient(&c)
 		report(msg, sig, oc, c)
 	case "b2b-cas":
 		var c b2bcase
